@@ -669,6 +669,10 @@ def h_live(eng, params):
             flow.rx('PUBREC', msgId=mid)
             expect.append(ref.enc_ack(ref.PUBREL, mid))
             rep = ref.enc_ack(ref.PUBREL, mid, dup=v31)
+            if params.get('then_inbound'):
+                # the client acknowledges an inbound QoS 1 PUBLISH (concrete identifier) before the PUBREL is repeated
+                flow.rx_raw('PUBLISH', ref.enc_publish(mkstr(eng, [0x69]), [1], 1, 0, 0, 0x0808), {'qos': 1, 'msgId': 0x0808})
+                expect.append(ref.enc_ack(ref.PUBACK, 0x0808))
     elif kind == 'sub':
         shape = params.get('shape', 'str')
         r = flow.subscribe(shape, qos=eng.int('sqos', 0, 2) if shape != 'list' else None)
